@@ -330,7 +330,7 @@ theorem partyColumn_ok_of_nested (g : D) (h : ∀ p ∈ g, ∃ d, p.2 = V.dict d
     obtain ⟨r, hr⟩ := hs
     exact ⟨.dict r, by rw [hr]; rfl⟩
   induction g with
-  | nil => exact ⟨[], by simp⟩
+  | nil => exact ⟨[], by simp; rfl⟩
   | cons p ps ih =>
     obtain ⟨r, hr⟩ := ih (fun q hq => h q (by simp [hq])) rfl
     obtain ⟨d, hd⟩ := h p (by simp)
